@@ -355,9 +355,50 @@ def run(ctx, rep):
 
 # ---------------------------------------------------------------- AGraph-level entry point (incl. exception path, unused rows)
 
+def deep_stacks(ctx, rep):
+    """well-formed stacks of any size evaluate: long dependency CHAINS (depth = size), not only wide stacks"""
+    import warnings
+    for n, kind in ((1500, "sum"), (5000, "sum"), (3000, "sincos"), (6000, "wide")):
+        if kind == "sum":
+            genome = [[G.VARIABLE, 0, 0]] + [[G.ADD, i, 0] for i in range(n - 1)]
+            want = lambda x0: n * x0
+        elif kind == "sincos":
+            genome = [[G.VARIABLE, 0, 0]] + [[G.SIN if i % 2 else G.COS, i, i] for i in range(n - 1)]
+            want = None
+        else:
+            genome = [[G.VARIABLE, 0, 0]] + [[G.ADD, 0, 0] for _ in range(n - 2)] + [[G.ADD, 1, n - 2]]
+            want = lambda x0: 4 * x0
+        x = np.array([[0.5], [-1.25], [3.0]])
+        case = {"shape": f"{kind} chain of {n} commands", "x": x.tolist()}
+        rep.case(("deep", kind, n), True)
+        rep.count("deep_stack", f"{kind} {n}")
+        ag = AGraph()
+        ag.command_array = np.array(genome, dtype=int).reshape(-1, 3)
+        try:
+            with warnings.catch_warnings():
+                warnings.simplefilter("ignore")
+                out = ag.evaluate_equation_at(x)
+        except BaseException as exc:      # RecursionError included
+            if isinstance(exc, (KeyboardInterrupt, SystemExit)):
+                raise
+            rep.violate(f"a well-formed stack ({case['shape']}) raised {type(exc).__name__} instead of returning its value", "C01:agraph-exception", case)
+            continue
+        if not (isinstance(out, np.ndarray) and out.shape == (3, 1)):
+            rep.violate(f"{case['shape']}: result of shape {getattr(out, 'shape', None)}", "C01:agraph-shape", case)
+        elif want is not None and not np.allclose(out.ravel(), [want(v) for v in x.ravel()], rtol=1e-9):
+            rep.violate(f"{case['shape']}: value {out.ravel().tolist()} differs from {[want(v) for v in x.ravel()]}", "C01:backend-value", case)
+        elif want is None:
+            v = x.ravel().copy()
+            for i in range(n - 1):
+                v = np.sin(v) if i % 2 else np.cos(v)
+            if not np.allclose(out.ravel(), v, rtol=1e-9):
+                rep.violate(f"{case['shape']}: value differs from the direct numpy evaluation", "C01:backend-value", case)
+
+
 def agraph_level(ctx, rep):
     rng = ctx.rng
     import warnings
+    deep_stacks(ctx, rep)
     shapes = G.hand_shapes(D=2)
     n = ctx.n(400, 6000)
     for k in range(n + len(shapes)):
